@@ -190,3 +190,42 @@ Proof.
   destruct (top_driver_move g t limit stop_at tableless m Hg Ht E) as [Hin | Hc]; [|exact Hc].
   rewrite He in Hin. destruct Hin.
 Qed.
+
+(* ---- statements for games reached by legal play, without side conditions on the kings ------------------------------- *)
+From Chess Require Import Proofs.LegalMoves.
+
+Lemma legal_search_reachable g : legal_reachable g -> search_reachable g.
+Proof. exact (sr_legal g). Qed.
+
+Theorem top_fen_roundtrip_legal g :
+  legal_reachable g -> exists g', import (fen g) = Ok g' /\ abs g' = abs g /\ g_hash g' = g_hash g.
+Proof.
+  intros Hr. apply top_fen_roundtrip; [exact (sr_legal g Hr)|].
+  destruct (legal_reachable_legalinv g Hr) as (_ & Hk & _). exact Hk.
+Qed.
+
+Theorem top_text_roundtrip g m :
+  legal_reachable g -> In m (checked_moves g) ->
+  uci m = move_text (abs_move m) /\ from_uci (uci m) g = Some m.
+Proof.
+  intros Hr Hin. pose proof (good_repinv g (legal_reachable_good g Hr)) as HR.
+  destruct (legal_reachable_kings g Hr) as [Hw Hb].
+  split.
+  - exact (generated_uci_is_standard g true m HR Hin).
+  - exact (generated_from_uci_uci g true m HR Hw Hb Hin).
+Qed.
+
+Theorem top_accepts_iff_legal g s m :
+  legal_reachable g -> parse_move s <> None ->
+  (accept g s = Some m <-> In m (checked_moves g) /\ uci m = s).
+Proof.
+  intros Hr Hs. pose proof (good_repinv g (legal_reachable_good g Hr)) as HR.
+  destruct (legal_reachable_kings g Hr) as [Hw Hb].
+  exact (generated_accepts_iff_legal g s m HR Hw Hb Hs).
+Qed.
+
+Theorem top_record g m :
+  legal_reachable g -> In m (checked_moves g) -> pgn_move m = record_entry (abs g) (abs_move m).
+Proof.
+  intros Hr Hin. exact (generated_pgn_is_record g true m (good_repinv g (legal_reachable_good g Hr)) Hin).
+Qed.
